@@ -348,7 +348,8 @@ Proof.
   destruct o as [n|n|keys g t|t| | |s|s|s|s|s|s|f| | |s| | ]; cbn [step ref_step].
   - (* SetTabWidth *) apply Hdrawn. apply bar_set_tw_R. exact HR.
   - cbn [fst snd]. split; [apply bar_set_tw_R; exact HR | reflexivity].
-  - cbn [fst snd]. split; [apply bar_set_style_R; [exact HR | apply style_new_self] | reflexivity].
+  - (* SetStyleNew *) destruct (glyphs_accept g); cbn [fst snd];
+      [split; [apply bar_set_style_R; [exact HR | apply style_new_self] | reflexivity] | split; [exact HR | reflexivity]].
   - (* SetStyleDerived *) cbn [fst snd]. split; [| reflexivity].
     assert (Hk : s_keys (b_style b) = r_keys r /\ s_gl (b_style b) = r_gl r)
       by (destruct HR as [_ [_ [_ [[_ [Hk [Hg _]]] _]]]]; auto).
@@ -559,20 +560,19 @@ Proof.
   - apply wrap_notab; [exact Ha | apply rep_notab, last_notab, Hg].
 Qed.
 
-Lemma tick_text_notab g tick fin : Forall notab (g_ticks g) -> notab (tick_text g tick fin).
-Proof. intros Hg. unfold tick_text. destruct fin; [apply last_notab | apply nth_notab]; exact Hg. Qed.
-
-Definition ctx_ok (c : rctx) : Prop := glyphs_ok (c_gl c) /\ env_ok (c_env c).
+(* what the builder contract (glyphs_accept) leaves of the progress characters *)
+Definition pchars_ok (g : glyphs) : Prop := Forall notab (g_pchars g).
+Definition ctx_ok (c : rctx) : Prop := pchars_ok (c_gl c) /\ env_ok (c_env c).
 
 Lemma static_buf_notab c h : ctx_ok c -> sty_ok (p_alt h) -> notab (static_buf c h).
 Proof.
-  intros [[Ht Hp] He] Ha. unfold static_buf. destruct (p_key h).
+  intros [Hp He] Ha. unfold static_buf. destruct (p_key h).
   - apply notab_nil.
   - apply notab_nil.
   - intros [H | []]. discriminate H.
   - intros [H | []]. discriminate H.
   - unfold format_bar. apply bar_text_notab; assumption.
-  - apply tick_text_notab. exact Ht.
+  - apply expand_no_tab.
   - apply He.
   - apply key_text_notab.
 Qed.
@@ -585,7 +585,7 @@ Qed.
 
 Lemma wide_bar_line_notab c alt cur : ctx_ok c -> sty_ok alt -> notab cur -> notab (wide_bar_line c alt cur).
 Proof.
-  intros [[Ht Hp] He] Ha Hc. unfold wide_bar_line, format_bar.
+  intros [Hp He] Ha Hc. unfold wide_bar_line, format_bar.
   apply replace_nul_notab; [exact Hc | apply bar_text_notab; assumption].
 Qed.
 
@@ -626,8 +626,8 @@ Qed.
 
 (* what the history installed so far satisfies [op_ok]'s demands *)
 Definition rok (r : rbar) : Prop :=
-  glyphs_ok (r_gl r) /\ Forall tpl_ok (r_tpl r)
-  /\ match r_saved r with Some (_, g, t) => glyphs_ok g /\ Forall tpl_ok t | None => True end.
+  pchars_ok (r_gl r) /\ Forall tpl_ok (r_tpl r)
+  /\ match r_saved r with Some (_, g, t) => pchars_ok g /\ Forall tpl_ok t | None => True end.
 
 Lemma forallb_notab (l : list text) : forallb (fun s => negb (has_tab s)) l = true -> Forall notab l.
 Proof.
@@ -635,8 +635,11 @@ Proof.
   rewrite forallb_forall in H. specialize (H s Hs). destruct (has_tab s); [discriminate | reflexivity].
 Qed.
 
-Lemma default_glyphs_ok : glyphs_ok default_glyphs.
-Proof. split; apply forallb_notab; vm_compute; reflexivity. Qed.
+Lemma glyphs_accept_ok g : glyphs_accept g = true -> pchars_ok g.
+Proof. apply forallb_notab. Qed.
+
+Lemma default_glyphs_ok : pchars_ok default_glyphs.
+Proof. apply glyphs_accept_ok. vm_compute. reflexivity. Qed.
 
 Lemma rok_init : rok rbar_init.
 Proof.
@@ -676,8 +679,8 @@ Proof.
   pose proof Hr as [Hg [Ht Hs]].
   destruct o as [n|n|keys g t|t| | |s|s|s|s|s|s|f| | |s| | ]; cbn [step ref_step op_ok] in *;
     try (apply Hdrawn; exact Hr); try (split; [exact Hr | exact I]).
-  - (* SetStyleNew *) cbn [fst snd out_notab]. split; [| exact I]. destruct Ho as [Ho1 Ho2].
-    split; [exact Ho1 | split; [exact Ho2 | exact Hs]].
+  - (* SetStyleNew *) destruct (glyphs_accept g) eqn:Ea; cbn [fst snd out_notab]; [| split; [exact Hr | exact I]].
+    split; [| exact I]. split; [exact (glyphs_accept_ok g Ea) | split; [exact Ho | exact Hs]].
   - (* SetStyleDerived *) cbn [fst snd out_notab]. split; [| exact I].
     split; [exact Hg | split; [exact Ho | exact Hs]].
   - (* SaveStyle *) cbn [fst snd out_notab]. split; [| exact I].
@@ -731,7 +734,8 @@ Proof.
   { intros t r'. destruct (ref_render E r'); reflexivity. }
   destruct o as [n|n|keys g t|t| | |s|s|s|s|s|s|f| | |s| | ]; cbn [ref_step last_tw last_msg last_prefix];
     rewrite ?Hd, ?ref_render_proj; try reflexivity.
-  destruct (r_saved r) as [[[k g] t]|]; reflexivity.
+  - destruct (glyphs_accept g); reflexivity.
+  - destruct (r_saved r) as [[[k g] t]|]; reflexivity.
 Qed.
 
 Lemma ref_state_closed E ops : forall r,
@@ -783,3 +787,13 @@ Proof.
   induction s as [|c s IH]; [reflexivity|]. rewrite expand_cons, app_length. cbn [ntabs length].
   destruct (c =? TAB); [rewrite length_tab_spaces | cbn [length]]; lia.
 Qed.
+
+(** ** regression: the {spinner} arm before / after commit 6ff82af *)
+(* the tick string as stored - what the arm pushed into the line before 6ff82af - may hold a TAB *)
+Lemma tick_text_can_have_tab : exists g tick fin, ~ notab (tick_text g tick fin).
+Proof.
+  exists (mkglyphs [[9]; [120]] [[35]; [45]] 1), 1, false. vm_compute. intros H. apply H. left. reflexivity.
+Qed.
+(* what the arm writes now *)
+Lemma spinner_buf_notab c h : p_key h = KSpinner -> notab (static_buf c h).
+Proof. intros Hk. unfold static_buf. rewrite Hk. apply expand_no_tab. Qed.
